@@ -44,6 +44,42 @@ def harness(exe, text, timeout=300):
     return r.stdout.splitlines(), None
 
 
+_PM = {}
+
+
+def freeze_pmodel(ctx):
+    """private copy of the model executable (other checks relink lean/.lake/build/bin/pmodel while this one runs)"""
+    import os
+    import shutil
+    import time
+    dst = vlib.BUILD / f"pmodel_c19_{os.getpid()}"
+    for _ in range(60):
+        try:
+            with vlib.Lock("lake"):
+                shutil.copy2(ctx.pmodel_path(), dst)
+            _PM["exe"] = dst
+            return
+        except OSError:
+            time.sleep(2)
+    raise RuntimeError("pmodel executable not available")
+
+
+def unfreeze_pmodel():
+    exe = _PM.pop("exe", None)
+    if exe is not None:
+        try:
+            exe.unlink()
+        except OSError:
+            pass
+
+
+def pm(ctx, text, timeout=600):
+    r = subprocess.run([str(_PM["exe"]), "gas"], input=text, text=True, capture_output=True, timeout=timeout)
+    if r.returncode:
+        raise RuntimeError("pmodel gas failed: " + r.stderr[-1000:])
+    return r.stdout.splitlines()
+
+
 def db_op(db):
     """op line that loads a database: a file name of /repo/database or ('text', str)"""
     if isinstance(db, tuple):
@@ -111,11 +147,11 @@ def three_root(ctx, pre, tk, vm, pairs):
     roots — the part of the plane the property leaves out"""
     lines = []
     vs = [vm * f for f in (0.999, 1.0, 1.001)]
-    first = ctx.pmodel("gas", "\n".join(pre + [eos_line(1.0, tk, v, pairs) for v in vs]) + "\n")
+    first = pm(ctx, "\n".join(pre + [eos_line(1.0, tk, v, pairs) for v in vs]) + "\n")
     ps = [parse_eos(ln) for ln in first]
     if any(e is None for e in ps):
         return True
-    second = ctx.pmodel("gas", "\n".join(pre + [eos_line(e["p_of_vm"], tk, v, pairs) for e, v in zip(ps, vs)]) + "\n")
+    second = pm(ctx, "\n".join(pre + [eos_line(e["p_of_vm"], tk, v, pairs) for e, v in zip(ps, vs)]) + "\n")
     es = [parse_eos(ln) for ln in second]
     return any(e is None or not (e["disct"] <= 0) for e in es)
 
@@ -142,7 +178,7 @@ def oracle_pr(ctx, pre, op, impl_line):
     if not (vm > 0 and p > 0 and math.isfinite(vm)):
         return None
     pairs = [(g, x[0]) for (g, _m), x in zip(o["gases"], comps)]
-    e = parse_eos(ctx.pmodel("gas", "\n".join(pre + [eos_line(p, o["tk"], vm, pairs)]) + "\n")[-1])
+    e = parse_eos(pm(ctx, "\n".join(pre + [eos_line(p, o["tk"], vm, pairs)]) + "\n")[-1])
     if e is None:
         return None
     if not three_root(ctx, pre, o["tk"], vm, pairs) and rel(e["p_of_vm"], p) > TOL_EOS:
@@ -183,7 +219,7 @@ def tie_calc_pr(ctx, exe, ok):
         impl = [ln for ln in out[1:]]
         # model: the same ops, each followed by an `eos` line (branch / three-root statistics) and the search-free variant
         mtext = "\n".join(pre + ops) + "\n"
-        model = ctx.pmodel("gas", mtext)
+        model = pm(ctx, mtext)
         hist[f"db:{label}"] = dict(gases=len(names), kij_entries=nk, ops=len(ops))
         if len(impl) != len(model) or len(impl) != len(ops):
             ctx.violation("calc_PR tie: line count differs", {"kind": "tie", "db": label, "impl": len(impl), "model": len(model)})
@@ -198,7 +234,7 @@ def tie_calc_pr(ctx, exe, ok):
                 stat_ops.append(eos_line(max(po["p"], 1e-10), po["tk"], 1.0, po["gases"]))
             else:
                 stat_ops.append("pr 0 " + " ".join(w[2:]))
-        stat = ctx.pmodel("gas", "\n".join(pre + stat_ops) + "\n")
+        stat = pm(ctx, "\n".join(pre + stat_ops) + "\n")
         for o, m, s in zip(ops, model, stat):
             if s.startswith("E ") and len(s.split()) > 4 and s.split()[4].isdigit():
                 b = "cardano_branch_" + s.split()[4]
@@ -303,9 +339,9 @@ def judge(ctx, case, res, pre):
                     cnt["pp_absent"] = cnt.get("pp_absent", 0) + 1
                     continue
                 cnt["pp_present"] = cnt.get("pp_present", 0) + 1
-                e = parse_eos(ctx.pmodel("gas", "\n".join(pre + [eos_line(ptarget, tk, 1.0, [(g, 1.0)])]) + "\n")[-1])
+                e = parse_eos(pm(ctx, "\n".join(pre + [eos_line(ptarget, tk, 1.0, [(g, 1.0)])]) + "\n")[-1])
                 vm = e["vm_of_p"]
-                e2 = parse_eos(ctx.pmodel("gas", "\n".join(pre + [eos_line(ptarget, tk, vm, [(g, 1.0)])]) + "\n")[-1])
+                e2 = parse_eos(pm(ctx, "\n".join(pre + [eos_line(ptarget, tk, vm, [(g, 1.0)])]) + "\n")[-1])
                 m = e2["comps"][0]
                 if m["zb"] > 0 and LNPHI_LO + 1e-3 < m["lnphi"] < LNPHI_HI - 1e-3:
                     chk("pp_phi_vs_eos", rel(phi[i], math.exp(m["lnphi"])), TOL_PHI,
@@ -348,7 +384,7 @@ def judge(ctx, case, res, pre):
                     chk("ideal_share", abs(peq[i] - x[i] * p) / p, TOL_EOS, f"{g}: partial pressure {peq[i]} is not the share {x[i]} of {p}")
             continue
         pairs = list(zip(gases, n))
-        out = ctx.pmodel("gas", "\n".join(pre + [eos_line(p, tk, vm, pairs)]) + "\n")
+        out = pm(ctx, "\n".join(pre + [eos_line(p, tk, vm, pairs)]) + "\n")
         e = parse_eos(out[-1])
         if e is None:
             cnt["eos_unavailable"] = cnt.get("eos_unavailable", 0) + 1
@@ -432,15 +468,19 @@ def run(ctx):
     ok = ctx.prove(["PhreeqcVerif.Properties.C19"])
     ctx.build_lib()
     exe = ctx.build_harness("ph_gas")
-    ev1, d1, hist1 = tie_calc_pr(ctx, exe, ok)
-    ctx.cov["calc_PR_tie"] = hist1
-    ev2 = d2 = 0
-    if not ctx.violations or not ok:
-        ev2, d2, hist2, stats, rels, cnt = real_runs(ctx, exe, ok)
-        ctx.cov["real_runs_input_distribution"] = hist2
-        ctx.cov["real_runs_outcome"] = stats
-        ctx.cov["real_runs_relations"] = rels
-        ctx.cov["real_runs_rows"] = cnt
+    freeze_pmodel(ctx)
+    try:
+        ev1, d1, hist1 = tie_calc_pr(ctx, exe, ok)
+        ctx.cov["calc_PR_tie"] = hist1
+        ev2 = d2 = 0
+        if not ctx.violations or not ok:
+            ev2, d2, hist2, stats, rels, cnt = real_runs(ctx, exe, ok)
+            ctx.cov["real_runs_input_distribution"] = hist2
+            ctx.cov["real_runs_outcome"] = stats
+            ctx.cov["real_runs_relations"] = rels
+            ctx.cov["real_runs_rows"] = cnt
+    finally:
+        unfreeze_pmodel()
     ctx.cov["evaluations"] = ev1 + ev2
     ctx.cov["distinct_nontrivial"] = d1 + d2
     ctx.cov["traces_validated_against_impl"] = ev1
@@ -460,12 +500,20 @@ def replay(ctx, data):
     ctx.build_lib()
     exe = ctx.build_harness("ph_gas")
     ctx.prove(["PhreeqcVerif.Properties.C19"])
+    freeze_pmodel(ctx)
+    try:
+        _replay(ctx, exe, data)
+    finally:
+        unfreeze_pmodel()
+
+
+def _replay(ctx, exe, data):
     if data.get("kind") == "tie":
         db = data["db"]
         db = ("text", db["synthetic"], "replay") if isinstance(db, dict) else db
         names, pre, _ = db_consts(exe, db)
         out, err = harness(exe, db_op(db) + "\nfresh\n" + data["op"] + "\n")
-        model = ctx.pmodel("gas", "\n".join(pre + [data["op"]]) + "\n")
+        model = pm(ctx, "\n".join(pre + [data["op"]]) + "\n")
         print("impl :", out[-1] if out else err)
         print("model:", model[-1])
         d = cmp_pr(out[-1], model[-1]) if out else ("crash",)
